@@ -588,7 +588,7 @@ func ruleC04SideSwap(c *Ctx) {
 
 // ruleC04KeyEncoding: per key column one value text and one separator.
 func ruleC04KeyEncoding(c *Ctx) {
-	c.Doc("c04.key-encoding", "bucket-key text: in the key-building loop every column contributes, in the same iteration, the %v text of the value read from the row for that column followed by a non-empty constant separator (without a separator (\"ab\",\"c\") and (\"a\",\"bc\") share a bucket), and the key map stores that same value under the column's name; the bucket id is a digest of exactly the buffer built for that row (buffer reset per row)")
+	c.Doc("c04.key-encoding", "bucket-key text: in the key-building loop every column contributes, in the same iteration, a self-delimiting component: the length of the %v text of the value read from the row for that column (terminated by a non-digit) followed by that text (with a plain separator (\"2024-01\",\"15\") and (\"2024\",\"01-15\") share a bucket), and the key map stores that same value under the column's name; the bucket id is a digest of exactly the buffer built for that row (buffer reset per row)")
 	f := c.P.Func(modPath, "ToCatalog")
 	if f == nil {
 		c.Unknown("c04.key-encoding", "ToCatalog", "-", "anchor lost")
@@ -618,7 +618,7 @@ func ruleC04KeyEncoding(c *Ctx) {
 		}
 		n++
 		var reader *Term
-		vals, seps, stores := 0, 0, 0
+		vals, seps, stores, lens := 0, 0, 0, 0
 		order := []string{}
 		for _, e := range p.Effects {
 			switch {
@@ -630,9 +630,25 @@ func ruleC04KeyEncoding(c *Ctx) {
 				}
 			case e.Kind == "call" && strings.Contains(e.Callee, "bytes.Buffer).WriteString"):
 				a := e.Args[len(e.Args)-1]
-				if sa, ok := callArgs(a, "fmt.Sprintf"); ok && len(sa) == 2 && sa[0].Name == `"%v"` && reader != nil && sa[1].Contains(func(x *Term) bool { return x.V == reader.V }) {
+				isText := func(t *Term) bool {
+					sa, ok := callArgs(t, "fmt.Sprintf")
+					return ok && len(sa) == 2 && sa[0].Name == `"%v"` && reader != nil && sa[1].Contains(func(x *Term) bool { return x.V == reader.V })
+				}
+				isLenOfText := func(t *Term) bool {
+					return t.Contains(func(x *Term) bool {
+						return x.Op == "call" && x.Name == "builtin:len" && len(x.Args) == 1 && isText(x.Args[0])
+					})
+				}
+				if isText(a) {
 					vals++
 					order = append(order, "v")
+				} else if sa, ok := callArgs(a, "fmt.Sprintf"); ok && len(sa) == 2 && strings.HasPrefix(sa[0].Name, `"%d`) && len(sa[0].Name) > 4 && isLenOfText(sa[1]) {
+					// the length of the text, terminated by a non-digit: the component is self-delimiting
+					lens++
+					order = append(order, "l")
+				} else if ia, ok := callArgs(a, "strconv.Itoa"); ok && len(ia) == 1 && isLenOfText(ia[0]) {
+					lens++
+					order = append(order, "l")
 				} else if a.Op == "const" && len(a.Name) > 2 {
 					seps++
 					order = append(order, "s")
@@ -651,8 +667,13 @@ func ruleC04KeyEncoding(c *Ctx) {
 		if reader == nil {
 			why = append(why, "the column's value is not read from the row")
 		}
-		if vals != 1 || seps != 1 || strings.Join(order, "") != "vs" {
-			why = append(why, fmt.Sprintf("per column: %d value texts and %d separators written (order %q; exactly value then separator expected)", vals, seps, strings.Join(order, "")))
+		switch o := strings.Join(order, ""); {
+		case vals == 1 && lens == 1 && (o == "lv" || o == "lsv"):
+			// length-prefixed component: injective
+		case vals == 1 && lens == 0 && (o == "vs" || o == "sv"):
+			why = append(why, "a key component is its %v text next to a constant separator: a value that contains the separator shifts the boundary ((\"2024-01\",\"15\") and (\"2024\",\"01-15\") share a bucket) — the component must be self-delimiting (length prefix)")
+		default:
+			why = append(why, fmt.Sprintf("per column: %d value texts, %d length prefixes and %d separators written (order %q; length prefix then value expected)", vals, lens, seps, o))
 		}
 		if stores != 1 {
 			why = append(why, fmt.Sprintf("per column: %d key-map stores", stores))
@@ -855,4 +876,53 @@ func ruleC04EntryMatcher(c *Ctx) {
 // value ordering are shared with C01 / C15
 func init() {
 	register("C04", ruleC01CmpTable, ruleC01Connectives, ruleC15Range, ruleC15Trichotomy, ruleC15ExactDomain, ruleC15Dispatch)
+}
+
+func init() { register("C04", ruleC04SideIdent); register("C07", ruleC04SideIdent) }
+
+// ruleC04SideIdent: every kind of join side carries its name.
+func ruleC04SideIdent(c *Ctx) {
+	c.Doc("c04.side-ident", "FROM builder (BuildFromAliasedTable): on every success path that installs aliased rows (query.from = ProcessAlias(rows, alias)) the side's identifier query.ident is stored as well — the join builder hands left.ident / right.ident to the matchers, which resolve the ON columns and name the NULL padding by them; a side without identifier (a derived table, say) joins to nothing")
+	f := c.P.Func(modPath, "BuildFromAliasedTable")
+	if f == nil {
+		c.Unknown("c04.side-ident", "BuildFromAliasedTable", "-", "anchor lost")
+		return
+	}
+	c.Fn("BuildFromAliasedTable")
+	paths, err := WalkFunc(f, WalkCfg{MaxVisits: 1, MaxPaths: 6000})
+	if err != nil {
+		c.Unknown("c04.side-ident", "BuildFromAliasedTable", c.P.Pos(f.Pos()), err.Error())
+		return
+	}
+	var why []string
+	n := 0
+	for _, p := range paths {
+		if p.Exit != "return" || len(p.Ret) != 1 || !p.Ret[0].Nil {
+			continue
+		}
+		aliased, ident := false, false
+		pos := ""
+		for _, e := range p.Effects {
+			if e.Kind != "store" || len(e.Args) != 2 || e.Args[0].Op != "field" {
+				continue
+			}
+			if e.Args[0].Name == "from" && strings.Contains(e.Args[1].String(), "ProcessAlias(") {
+				aliased = true
+				pos = c.P.Pos(e.Instr.Pos())
+			}
+			if e.Args[0].Name == "ident" {
+				ident = true
+			}
+		}
+		if aliased {
+			n++
+			if !ident {
+				why = append(why, "the source installed at "+pos+" gets no identifier (query.ident is not stored on that path): as a join side it matches nothing and its NULL padding is keyed by the empty name")
+			}
+		}
+	}
+	if n < 3 {
+		why = append(why, fmt.Sprintf("only %d success paths install aliased rows (plain table, CTE and derived table expected)", n))
+	}
+	c.Check(len(why) == 0, "c04.side-ident", "BuildFromAliasedTable", c.P.Pos(f.Pos()), fmt.Sprintf("%d paths install aliased rows, each with its identifier", n), strings.Join(uniq(why), "; "))
 }
